@@ -45,6 +45,9 @@ type Edge struct {
 	NoControl bool   `json:"nc,omitempty"`
 	NoData    bool   `json:"nd,omitempty"`
 	ToKey     string `json:"tk,omitempty"`
+	// FromKey (workflow only): the value under this key of From's map output is what is mapped (to ToKey, or to
+	// the whole input of To when ToKey is empty).  Generated only for keys that every value of From carries.
+	FromKey string `json:"fk,omitempty"`
 }
 
 // Branch is a conditional connection from From to a subset of Targets, decided by a
